@@ -59,13 +59,14 @@ def main():
         notes.append("generated data changed with respect to the last run: " + ",".join(g["changed"]))
 
     try:
-        lines = [args_line for args_line in (suite.ops(tier, rng, gen.boundary_values()) if not args.replay else json.load(open(args.replay)).get("inputs", []))]
+        lines = [args_line for args_line in (suite.ops(tier, rng, gen.boundary_values(extra=[v for v in g["consts"].values() if isinstance(v, int)])) if not args.replay else json.load(open(args.replay)).get("inputs", []))]
         # corpus first
         cp = os.path.join(fmlib.VERIF, "corpus", pid + ".txt")
         if os.path.exists(cp) and not args.replay:
             lines = [l.strip() for l in open(cp) if l.strip() and not l.startswith("#")] + lines
         if not args.replay:
-            lines = lines + gen.alias_lines(lines, random.Random(seed * 7919 + 13))
+            r2 = random.Random(seed * 7919 + 13)
+            lines = lines + gen.alias_lines(lines, r2) + gen.reuse_lines(lines, r2)
         seen, uniq = set(), []
         for l in lines:
             if l not in seen: seen.add(l); uniq.append(l)
@@ -155,9 +156,14 @@ def main():
 
     # constant-evaluation leg (C08): the model's value must be accepted as a constant expression
     ce_stats = None
-    if getattr(suite, "constexpr", False):
+    if not args.replay or getattr(suite, "constexpr", False):
+        full = getattr(suite, "constexpr", False)          # C08: the whole configuration list and more assertions
         mo_ab = model_by_be.get("ab") or fmlib.run_parallel(driver, [l.replace(":dflt", ":ab") for l in lines])[0]
-        ce_stats, ce_fail = cexpr.run(lines, mo_ab, suites.parse_line, tier, 350 if tier == "quick" else 4000, priority=[d[0] for d in diverge])
+        nt_sorted = [l for l in lines if l in nontriv]
+        random.Random(seed + 7).shuffle(nt_sorted)
+        limit = 6000 if tier == "quick" else 60000
+        cfgs = None if full else ([("g++", "c++17", True), ("clang++-14", "c++20", False)] if tier == "quick" else None)
+        ce_stats, ce_fail = cexpr.run(lines, mo_ab, suites.parse_line, tier, limit, priority=[d[0] for d in diverge] + nt_sorted, configs=cfgs)
         for f in ce_fail:
             oracle_fail.append((f["input"] or "<translation unit>", "constant-evaluation " + f["config"], "compile error",
                                 "not accepted as a constant expression equal to the run-time/model value %s: %s" % (f.get("expected"), f["error"])))
@@ -209,9 +215,9 @@ def main():
     return finish(ev, pid, t0, violations, notes, lean)
 
 def suite_variants(suite, tier):
-    from fmlib import V_DEFAULT, V_ABACUS, V_CLANG20, V_SAN, V_SAN_ABACUS
+    from fmlib import V_DEFAULT, V_ABACUS, V_CLANG20, V_SAN, V_SAN_ABACUS, V_REL
     if tier == "quick":
-        vs = [V_DEFAULT, V_CLANG20, V_SAN]
+        vs = [V_DEFAULT, V_CLANG20, V_REL, V_SAN]
         if suite.needs_abacus_leg: vs += [V_ABACUS]
         return vs
     vs = []
@@ -220,6 +226,7 @@ def suite_variants(suite, tier):
             for opt in ("-O0", "-O1", "-O2", "-O3"):
                 vs.append(Variant(cxx, std, opt, abacus=False))
                 if suite.needs_abacus_leg or opt in ("-O2",): vs.append(Variant(cxx, std, opt, abacus=True))
+    vs += [V_REL, Variant("g++", "c++2b", "-O3", extra=("-DNDEBUG", "-funsigned-char"), label="rel")]
     vs += [V_SAN, V_SAN_ABACUS, Variant("clang++-14", "c++20", "-O1", san=True)]
     return vs
 
